@@ -866,15 +866,15 @@ fn exp_tag(e: &ExpResult) -> String {
 }
 
 pub fn snap_hash(s: &Snap, root: &Path) -> u64 {
+    // The event log must not depend on where the world lives: the root's text is scrubbed from
+    // link targets and from file contents (an env value may hold a layer path), and sizes are
+    // taken after scrubbing (scratch directory names differ in length between workers).
+    let rootb = root.as_os_str().as_bytes();
     let mut h: u64 = 0;
     for (k, v) in &s.nodes {
         h = splitmix64(h ^ crate::rng::hash_bytes(k));
-        h = splitmix64(h ^ hash_str(&scrub(&v.describe(), root)));
-        if let crate::snap::Node::File { data, .. } = v {
-            // contents may name the world's own location (an env value holding a layer path):
-            // the event log must not depend on where the world lives
-            let rootb = root.as_os_str().as_bytes();
-            if !rootb.is_empty() && data.windows(rootb.len()).any(|w| w == rootb) {
+        match v {
+            crate::snap::Node::File { data, mode } if !rootb.is_empty() && data.windows(rootb.len()).any(|w| w == rootb) => {
                 let mut scrubbed = Vec::with_capacity(data.len());
                 let mut i = 0;
                 while i < data.len() {
@@ -886,9 +886,17 @@ pub fn snap_hash(s: &Snap, root: &Path) -> u64 {
                         i += 1;
                     }
                 }
-                h = splitmix64(h ^ crate::rng::hash_bytes(&scrubbed));
-            } else {
-                h = splitmix64(h ^ crate::rng::hash_bytes(data));
+                let node = crate::snap::Node::File { data: scrubbed, mode: *mode };
+                h = splitmix64(h ^ hash_str(&node.describe()));
+                if let crate::snap::Node::File { data, .. } = &node {
+                    h = splitmix64(h ^ crate::rng::hash_bytes(data));
+                }
+            }
+            _ => {
+                h = splitmix64(h ^ hash_str(&scrub(&v.describe(), root)));
+                if let crate::snap::Node::File { data, .. } = v {
+                    h = splitmix64(h ^ crate::rng::hash_bytes(data));
+                }
             }
         }
     }
